@@ -66,6 +66,28 @@ pub fn run(ctx: &Ctx, reg: &Registry) -> i32 {
                 if case.payload.json_representable() {
                     model_case(&mut acc, reg, "C09", s, &case, Source::Json, &A);
                 }
+                // (a') the same with repeated members (second value source): a repeated KNOWN key is still a known
+                // key — never reported unknown, never passed to the custom function; the model processes repeated
+                // keys in enumeration order
+                if i % 3 == 0 {
+                    let dcase = gen_case_h(reg, s, ctx.seed.wrapping_add(9090), i, Host { dup: true, nonfinite: false, noncanon: false, alias: false });
+                    if !unique_keys(&dcase.payload) {
+                        note_case(&mut acc, s, &dcase);
+                        let r = model_case(&mut acc, reg, "C09", s, &dcase, Source::Ov, &A);
+                        acc.count("payloads_with_repeated_keys");
+                        for rep in r.reports() {
+                            if let monitor::RKind::UnknownKey { key, accepted } = &rep.kind {
+                                if accepted.contains(key) {
+                                    acc.violation(
+                                        format!("C09/known-key-reported-unknown/{}", ctor(&reg.defs, s.ty())),
+                                        "a key that is among the accepted keys was reported as unknown",
+                                        witness(s, &dcase.payload, Source::Ov, &Script::Continue, &r, json!({"key": key, "accepted": accepted})),
+                                    );
+                                }
+                            }
+                        }
+                    }
+                }
                 // (b) metamorphic, no model: add extra members to every object whose type ignores unknown keys
                 if matches!(base_run.outcome, Outcome::Panic(_)) {
                     continue;
